@@ -530,12 +530,13 @@ func parseLiteral(literal []byte) (byte, any, error) {
 		} else if number {
 			switch numberType {
 			case 'F', 'f':
-				num, err := strconv.ParseFloat(string(literal[:strlen-1]), 64)
+				num, err := strconv.ParseFloat(string(literal[:strlen-1]), 32)
 				return TagFloat, float32(num), err
 			case 'D', 'd':
-				fallthrough
-			default:
 				num, err := strconv.ParseFloat(string(literal[:strlen-1]), 64)
+				return TagDouble, num, err
+			default: // no suffix: the whole literal is the number
+				num, err := strconv.ParseFloat(string(literal), 64)
 				return TagDouble, num, err
 			}
 		} else if unqstr {
